@@ -671,8 +671,15 @@ func cryptoPolicyMain(rc *RunCtx) {
 				isDefault = true
 			}
 		}
-		if isDefault && p.refProvide == 3 && p.refSelect == 0 && p.mse && (!cl.OK || !sv.OK) {
-			rc.Fail("C08", "interop", class, "storrent (%s) and a conforming independent MSE peer failed to connect: client %q server %q", optString(so), cl.Err, sv.Err)
+		// the reference server may also pick, verbatim, any method the
+		// client did offer (plaintext when it does not force encryption,
+		// RC4 when it allows it): that is a conforming peer too
+		selOK := p.refSelect == 0
+		if p.serverKind == "ref" && p.refSelectVerbatim && ((p.refSelect == 1 && !so.ForceEncryption) || (p.refSelect == 2 && so.AllowEncryption)) {
+			selOK = true
+		}
+		if isDefault && p.refProvide == 3 && selOK && p.mse && (!cl.OK || !sv.OK) {
+			rc.Fail("C08", "interop", class, "storrent (%s) and a conforming independent MSE peer (crypto_select %d) failed to connect: client %q server %q", optString(so), p.refSelect, cl.Err, sv.Err)
 		}
 	}
 }
